@@ -336,13 +336,17 @@ func copyFiles(from, to string) (leftovers []string, sig string) {
 		os.WriteFile(filepath.Join(to, e.Name()), b, mode)
 		os.Chmod(filepath.Join(to, e.Name()), mode)
 		if e.Name() != "side.log" {
-			// the name with its digits blanked (random suffixes), the mode and the bytes
-			name := strings.Map(func(c rune) rune {
+			// the name with every run of digits blanked (random suffixes), the mode and the bytes
+			name := ""
+			for _, c := range e.Name() {
 				if c >= '0' && c <= '9' {
-					return '#'
+					if !strings.HasSuffix(name, "#") {
+						name += "#"
+					}
+					continue
 				}
-				return c
-			}, e.Name())
+				name += string(c)
+			}
 			sig += fmt.Sprintf("%s|%o|%x;", name, mode, sha256.Sum256(b))
 		}
 		if e.Name() != "Hookaidofile" && e.Name() != "side.log" {
@@ -440,7 +444,7 @@ func secondPhase(r *runner.Run, refs *secondRefs, scn, work, crashed string, n i
 		r.Violation("file-replace-after-crash:"+scn+":"+kind+":content", fmt.Sprintf("%s: the configured path holds %d bytes that are not what the same rewrite leaves in a clean directory (%d bytes); compiles=%v; tail: %q", where, len(got.content), len(want.content), compiles(got.content), tailBytes(got.content, 160)), replay, nil)
 	}
 	// thorough: the second rewrite is itself killed at every one of its crash points, once per distinct directory
-	// state (file names with their random digits blanked, modes, bytes): the configured path must hold the content the
+	// state (file names with their runs of digits blanked, modes, bytes): the configured path must hold the content the
 	// fresh process found or the complete second content
 	if r.Thorough() && len(leftovers) > 0 && got.points > 0 {
 		key := scn + "|" + kind + "|" + sig
